@@ -79,6 +79,7 @@ def runCutIn (c : Case) : String :=
 
 def renderOptErr : Option Err → String
   | none => "nil"
+  | some (.sentinel 0) => "nil"   -- Error(nil) (script token E0): the error Collect returns IS nil
   | some e => renderErr e
 
 def runCollect (c : Case) : String :=
